@@ -157,14 +157,22 @@ def make_modules(fs):
 
         @property
         def parent(self):
-            return FakePath(self._p.parent)
+            return type(self)(self._p.parent)
 
         @property
         def name(self):
             return self._p.name
 
+        @property
+        def stem(self):
+            return self._p.stem
+
+        @property
+        def suffix(self):
+            return self._p.suffix
+
         def joinpath(self, *a):
-            return FakePath(self._p.joinpath(*[builtins.str(x) for x in a]))
+            return type(self)(self._p.joinpath(*[builtins.str(x) for x in a]))
 
         def __truediv__(self, o):
             return self.joinpath(o)
